@@ -1,4 +1,5 @@
 import OdfProofs.TableHist
+import OdfProofs.TableObj
 
 /-!
 # C02 — what a table answers in memory is what its own XML says when parsed afresh
@@ -9,10 +10,18 @@ freshly computed `_rmap`.  "Parsed afresh" is `parse` (maps recomputed by `make_
 The theorems say: after every operation of every history the kept maps are exactly the
 recomputed ones, so the live object *is* the freshly parsed one and every read agrees.
 
-PARTIAL (stated in DESIGN.md): the per-object caches of wrapper objects (`_indexes`, and the
-`_rmap` of a `Row` object cached by an earlier read) are not part of the model; for them the
-property is decided by the correspondence run only (live object vs `Element.from_tag` of its
-own serialisation vs an independent lxml expansion, after every step).
+The second half of the file is the OBJECT layer (`OdfModel/TableObj.lean`): the table's cache
+of `Row` wrappers (`_indexes["_tmap"]`), each wrapper's own `_rmap` and its cache of `Cell`
+wrappers (`_indexes["_rmap"]`).  There a read is served from whatever an earlier read cached, an
+edit of an unrepeated row goes through the cached wrapper in place, and the caches are emptied
+exactly where the code empties them.  `cached_history_fresh` says: for every history of
+mutations interleaved with cache-filling reads, every answer and the XML are those of tables
+that never cache anything, i.e. of the fresh parse at every step.
+
+PARTIAL (stated in DESIGN.md): the cache of column wrappers (`_indexes["_cmap"]`) and wrappers
+kept by the caller across later edits (C08 / C10) are outside the model; the identification of
+a cached wrapper's element with the element at its key is checked on the live objects by the
+correspondence (`harness/c02.py`, `cache_walk`) after every step.
 -/
 namespace Odf.C02
 open Odf.Rle Odf.Table Odf.Grid
@@ -80,5 +89,61 @@ example : getValue { cols := fresh [(0, 2)], rows := { runs := [([(1, 1)], 1), (
     ≠ getValue (parse [(0, 2)] [([(1, 1)], 1), ([(2, 1)], 1)]) 0 1 := by decide +kernel
 example : Table.sizeOf { cols := fresh [(0, 2)], rows := { runs := [([(1, 1)], 1), ([(2, 1)], 1)], map := [1] } }
     ≠ Table.sizeOf (parse [(0, 2)] [([(1, 1)], 1), ([(2, 1)], 1)]) := by decide +kernel
+
+/-! ## the object layer: caches of wrapper objects -/
+
+open Odf.TableObj
+
+/-- one operation made through coherent caches does to the XML and the maps what it does on a
+    table that has no cached wrapper at all -/
+theorem cached_step_refines (o : OTbl) (hc : CacheOk o) (hi : Inv o.t) (op : Op) (hv : op.Valid) :
+    (ostep o op).map (·.t) = step o.t op := ostep_refines o hc hi op hv
+
+/-- … and leaves every cached wrapper describing the element at its key: its own map is the
+    map of the element's current cells, its cached cells are the cells at their keys -/
+theorem cached_step_keeps_caches (o : OTbl) (hc : CacheOk o) (hi : Inv o.t) (op : Op) (hv : op.Valid)
+    (o' : OTbl) (h : ostep o op = some o') : CacheOk o' := ostep_cacheOk o hc hi op hv o' h
+
+/-- `get_value` served from the caches = `get_value` of the fresh parse of the XML -/
+theorem cached_get_value_fresh (o : OTbl) (hc : CacheOk o) (hi : Inv o.t) (x y : Int) :
+    (oGetValue o x y).1 = getValue (parse o.t.cols.runs o.t.rows.runs) x y ∧
+      (oGetValue o x y).2.t = o.t ∧ CacheOk (oGetValue o x y).2 := by
+  rw [reparse_id o.t hi]; exact oGetValue_ok o hc x y
+
+/-- `get_row_values` served from the caches (the wrapper's own map expands the row) = the
+    expansion of the row in a fresh parse -/
+theorem cached_row_values_fresh (o : OTbl) (hc : CacheOk o) (hi : Inv o.t) (y : Int) :
+    (oGetRowValues o y).1 = rowValuesFresh (parse o.t.cols.runs o.t.rows.runs) y ∧
+      (oGetRowValues o y).2.t = o.t ∧ CacheOk (oGetRowValues o y).2 := by
+  rw [reparse_id o.t hi]; exact oGetRowValues_ok o hc hi y
+
+/-- **every history of mutations interleaved with cache-filling reads**, from a freshly parsed
+    table: the run through the caches succeeds, gives at every step the answer of the run that
+    never caches a wrapper, reaches the same XML, and that XML parsed afresh is the live table -/
+theorem cached_history_fresh (ops : List OOp) (t : Tbl) (hi : Inv t) (hfit : GridFit (absT t))
+    (hv : ∀ op ∈ muts ops, op.Valid)
+    (hlimbo : ∀ k, k ≤ (muts ops).length → NoLimbo (grun (absT t) ((muts ops).take k))) :
+    ∃ o' answers, orun (parsed t) ops = some (o', answers) ∧ frun t ops = some (o'.t, answers) ∧
+      CacheOk o' ∧ parse o'.t.cols.runs o'.t.rows.runs = o'.t := by
+  obtain ⟨o', ans, e, f, c, i⟩ := cached_history ops (parsed t) (CacheOk.parsed t) hi hfit hv hlimbo
+  exact ⟨o', ans, e, f, c, reparse_id o'.t i⟩
+
+/-! the theorems are not vacuous: reads do fill the caches, an in-place edit keeps them, and
+    a wrapper left behind with an obsolete map (what `insert_column` without its final
+    `_indexes["_tmap"] = {}` leaves) answers differently from the fresh parse -/
+def t0 : Tbl := parse [(0, 3)] [([(1, 1), (0, 2)], 1), ([(2, 1)], 2)]
+
+example : ((orun (parsed t0) [.readValue 0 0, .readRow 0, .edit (.setCell 1 0 3 1), .readValue 1 0, .touchRow 2]).map
+    (fun r => (r.1.tcache, r.2))) =
+    some ([(1, { rmap := [1], ccache := [] }), (0, { rmap := [1, 2, 3], ccache := [(1, 3)] })],
+      [[1], [1, 0, 0], [], [3], []]) := by decide +kernel
+
+/-- the state `insert_column(0)` would leave if it kept the cached wrapper of row 0 -/
+def staleT : OTbl :=
+  { t := parse [(0, 1), (0, 3)] [([(0, 1), (1, 1), (0, 2)], 1), ([(0, 1), (2, 1)], 2)],
+    tcache := [(0, { rmap := [1, 3], ccache := [(0, 1)] })] }
+
+example : (oGetRowValues staleT 0).1 = [1, 1, 1, 0] ∧ rowValuesFresh staleT.t 0 = [0, 1, 0, 0] := by decide +kernel
+example : (oGetValue staleT 1 0).1 = 1 ∧ getValue staleT.t 2 0 = 0 ∧ (oGetValue staleT 2 0).1 = 1 := by decide +kernel
 
 end Odf.C02
